@@ -152,8 +152,8 @@ def _chunk(task):
 
 
 def PROOFS():
-    from ..contracts import design_c, variable_c  # noqa: F401
-    return [("vf.contracts.design_c", design_c.FUNCTIONS),
+    from ..contracts import design_c, variable_c, utils_c  # noqa: F401
+    return [("vf.contracts.design_c", design_c.FUNCTIONS), ("vf.contracts.utils_c", utils_c.FUNCTIONS),
             ("vf.contracts.variable_c", ["formulae.terms.variable.Variable.eval_categoric", "formulae.terms.call.Call.eval_categoric"]),
             # stateless transforms return positional arrays computed row by row (no index labels to align on)
             ("vf.contracts.transforms_c", ["formulae.transforms.binary",
